@@ -116,12 +116,16 @@ def mrd (h : List α) (mask : List Bool) : Option (List α) :=
 
 /-! ### the pipeline -/
 
+/-- the histogram before normalisation (`mrd=False`): projection, spherical coordinates, binning, `post` -/
+def pdfRaw (proj : Vec3 α → Vec3 α) (ea ep : List α) (post : List α → List α) (pts : List (Vec3 α × α)) : List α :=
+  let sph := pts.map (fun p => let u := proj p.1; (Stereo.azimuth u, Stereo.polar u, p.2))
+  post (hist2 ea ep sph)
+
 /-- `pole_density_function(v, weights, symmetry)` with the projection into the fundamental sector `proj`
 (identity when no symmetry is given), the smoothing/re-binning stage `post` and the validity mask as
 parameters -/
 def pdf (proj : Vec3 α → Vec3 α) (ea ep : List α) (post : List α → List α) (mask : List Bool)
     (pts : List (Vec3 α × α)) : Option (List α) :=
-  let sph := pts.map (fun p => let u := proj p.1; (Stereo.azimuth u, Stereo.polar u, p.2))
-  mrd (post (hist2 ea ep sph)) mask
+  mrd (pdfRaw proj ea ep post pts) mask
 
 end Orix.Hist
